@@ -50,7 +50,7 @@ def tasks(tier, seed):
     nodes = ['LEGENDRE', 'EQUID'] if quick else cm.NODE_TYPES
     for kind, qds in (('generic_implicit', [('IE',), ('LU',), ('MIN-SR-S',), ('PIC',)] if quick else [(q,) for q in ['IE', 'LU', 'MIN-SR-S', 'MIN-SR-NS', 'PIC', 'Qpar', 'GS', 'TRAP', 'MIN']]),
                       ('explicit', [('EE',), ('PIC',), ('LF',)]),
-                      ('imex_1st_order', [('IE', 'EE'), ('LU', 'EE'), ('LU', 'LF')] if quick else [('IE', 'EE'), ('LU', 'EE'), ('LU', 'PIC'), ('MIN-SR-S', 'EE'), ('LU', 'LF'), ('IE', 'LF')])):
+                      ('imex_1st_order', [('IE', 'EE'), ('LU', 'EE'), ('LU', 'LF'), ('LU', 'PIC'), ('IE', 'PIC')] if quick else [('IE', 'EE'), ('LU', 'EE'), ('LU', 'PIC'), ('IE', 'PIC'), ('MIN-SR-S', 'EE'), ('MIN-SR-S', 'PIC'), ('LU', 'LF'), ('IE', 'LF')])):
         for nt in nodes:
             for qt in cm.QUAD_TYPES:
                 for M in ([1, 2, 3] if quick else [1, 2, 3, 4, 5]):
